@@ -449,8 +449,9 @@ def run_check(prop, modname, jobs, tier, seed, level='model_checking', functions
         'wall_s': round(wall, 2),
         'violations': len(confirmed),
     }
-    os.makedirs(os.path.join(VERIF, 'evidence'), exist_ok=True)
-    with open(os.path.join(VERIF, 'evidence', '%s.json' % prop), 'w') as f:
+    evdir = os.environ.get('VERIF_EVIDENCE_DIR') or os.path.join(VERIF, 'evidence')
+    os.makedirs(evdir, exist_ok=True)
+    with open(os.path.join(evdir, '%s.json' % prop), 'w') as f:
         json.dump(ev, f, indent=1, default=str)
     print('%s %s: paths=%d queries=%d proved=%d xval=%d known=%d violations=%d inconclusive=%d '
           'wall=%.1fs exit=%d' % (prop, tier, agg['paths'], agg['checks'], agg['proved'], agg['xval'],
